@@ -36,8 +36,8 @@ STUBS = ['recording storage', 'OrderedDict -> equality-based ordered map '
 ASSUMPTIONS = ['a forwarding rule that rewrites a recipient to the empty '
                'string is skipped (documented behaviour of Forward.apply)']
 CELL_BUDGET_S = {'quick': 240, 'thorough': 2400}
-SAMPLE_P = 0.005
-MAX_WITNESSES = 3
+SAMPLE_P = 0.02
+MAX_WITNESSES = 6
 ALPHA = [0x40, 0x2e, 0x61, 0x41, 0x62, 0x42, 0x31]
 
 MENU = [
